@@ -203,6 +203,21 @@ def deck_out_of_order(n=3) -> bytes:
     return write_zip(m)
 
 
+def deck_twelve_last_first() -> bytes:
+    """Twelve slides; the LAST one (part slide12.xml) was dragged to the front: position 1 holds a part whose name
+    starts like slide1 (two-digit names, string prefix != number)."""
+    from lxml import etree
+    m = zip_members(deck_with_slides(12))
+    root = etree.fromstring(m["ppt/presentation.xml"])
+    ns = {"p": "http://schemas.openxmlformats.org/presentationml/2006/main"}
+    lst = root.find("p:sldIdLst", ns)
+    kids = list(lst)
+    lst.remove(kids[-1])
+    lst.insert(0, kids[-1])
+    m["ppt/presentation.xml"] = etree.tostring(root, xml_declaration=True, encoding="UTF-8", standalone=True)
+    return write_zip(m)
+
+
 def deck_non_contiguous() -> bytes:
     """Deck with slide parts named slide3.xml and slide7.xml (in that presentation order)."""
     blob = deck_with_slides(2)
